@@ -130,9 +130,11 @@ func main() {
 	em := netrows.NewEmitter()
 	total := 0
 	for _, k := range netstacks.Kinds {
+		em.Watch(k, "the rows of this stack", 3*time.Minute)
 		n := rows(em, k)
 		total += n
 		em.Sample(map[string]any{"stack": k, "cases": n})
 	}
+	em.Watch("", "", 0)
 	em.Stats(map[string]int{"evaluations": total, "stacks": len(netstacks.Kinds)})
 }
